@@ -56,5 +56,5 @@ PROBES = [
     "seeded_call_right_after_ctor_reseed", "boundary_draw_exactly_on_partial_sum", "boundary_draw_on_sum_followed_by_zero_prob",
     "boundary_draw_at_or_above_float_total_below_one", "boundary_draw_zero_with_leading_zero_prob",
     "generator_shared_by_two_tomography_objects", "twin_call_decisive", "twin_call_trivial", "none_stream_after_reseed",
-    "malformed_request_raised", "v2_checks",
+    "malformed_request_raised", "v2_checks", "V3_undecided_coincidence",
 ]
